@@ -3,6 +3,7 @@ package h
 import (
 	"fmt"
 	"math/rand"
+	"sync"
 )
 
 // MakeConcr builds the concretisation table selected by the dimensions.
@@ -39,11 +40,53 @@ func MakeConcr(d Dims) *Concr {
 		for i := 1; i < len(c.Keys); i++ {
 			c.Keys[i] = append([]byte{0}, byte(i))
 		}
+	case "sized":
+		// values of very different sizes, so that the persisted segments fall into different
+		// levels of the store's leveled compaction and partial compactions get splice points > 0
+		c.Tokens[2] = bytesOf('B', 400)
+		c.Tokens[9] = bytesOf('P', 1500)
+		c.Tokens[12] = bytesOf('M', 150)
+	case "limits", "limits28":
+		// the documented limits: the last key has the longest accepted length (2^24-1 bytes), the
+		// value of "s2" has a page-size multiple ("limits") or the longest accepted length
+		// (2^28-1 bytes, "limits28"); everything else stays small
+		c.Keys[len(c.Keys)-1] = bytesOf('z', 1<<24-1)
+		if d.ConcrProfile == "limits28" {
+			c.Tokens[2] = bytesOf('V', 1<<28-1)
+		} else {
+			c.Tokens[2] = bytesOf('V', 3*4096)
+		}
 	default:
 		panic(fmt.Sprintf("unknown concretisation profile %q", d.ConcrProfile))
 	}
 	return c
 }
+
+func bytesOf(b byte, n int) []byte {
+	out := make([]byte, n)
+	for i := range out {
+		out[i] = b
+	}
+	return out
+}
+
+var (
+	oversizeOnce         sync.Once
+	oversizeK, oversizeV []byte
+)
+
+func oversizeInit() {
+	oversizeOnce.Do(func() {
+		oversizeK = bytesOf('K', 1<<24) // one byte more than the longest key
+		oversizeV = bytesOf('W', 1<<28) // one byte more than the longest value
+	})
+}
+
+// OversizeKey is a key the batch must reject with ErrKeyTooLarge.
+func OversizeKey() []byte { oversizeInit(); return oversizeK }
+
+// OversizeVal is a value the batch must reject with ErrValueTooLarge.
+func OversizeVal() []byte { oversizeInit(); return oversizeV }
 
 func sortInts(a []int) {
 	for i := 1; i < len(a); i++ {
